@@ -1,6 +1,8 @@
 import DilithiumVerif.Impl.Packing
 import DilithiumVerif.Lemmas.CodecsFull
 import DilithiumVerif.Lemmas.Containers
+import DilithiumVerif.Lemmas.EncodeSpec
+import DilithiumVerif.Lemmas.DecodeSpec
 /-
   C16 — Bit-packing is the specification's encoding and is lossless.
   Round trips are proved on the faithful Impl forms (i32 shifts/ORs/casts), per group of coefficients.
@@ -104,5 +106,74 @@ theorem hint_section_roundtrip (omega : Nat) (ho : omega ≤ 255) (h : List Poly
     simpa [List.replicate_append_replicate] using this
   · have := unpack_hints omega ho h 0 0 [] [] [] rfl rfl (by omega) hb
     simpa using this
+
+/-! ### "is the specification's encoding": FIPS 204 §7.1 bit strings (IntegerToBits, BitsToBytes, SimpleBitPack, BitPack)
+
+`BitSpec.intToBits x α` is Alg. 9 (α low bits, least significant first), `BitSpec.bitsToBytes` is Alg. 12 on a bit
+string whose length is a multiple of 8 (bit 8i + j has weight 2^j in byte i), `simpleBitPack w b` packs every w_i with
+`b` bits (Alg. 16), `bitPack w b bits` packs b − w_i (Alg. 17). -/
+
+open DV.BitSpec DV.EncodeSpec DV.Containers in
+/-- every coefficient encoder of the crate, on every polynomial in its range, emits exactly the specification's
+    little-endian bit-packed bytes: t1 = SimpleBitPack(·, 10 bits), t0 = BitPack(·, 2^12 − 1, 2^12) on 13 bits,
+    η-secrets = BitPack(·, η, η) on 3 / 4 bits, z = BitPack(·, γ1 − 1, γ1) on 18 / 20 bits, w1 = SimpleBitPack on 6 / 4 bits;
+    the length is 32·bits bytes -/
+theorem encoders_are_fips204_bitpack (lv : Lvl) (a : List Int) (hl : a.length = 256) :
+    ((∀ x ∈ a, 0 ≤ x ∧ x < 1024) → t1_pack a = simpleBitPack (a.map Int.toNat) 10) ∧
+    ((∀ x ∈ a, -4096 < x ∧ x ≤ 4096) → t0_pack a = .ok (bitPack a 4096 13)) ∧
+    ((∀ x ∈ a, -(etaB lv) ≤ x ∧ x ≤ etaB lv) → eta_pack lv a = .ok (bitPack a (etaB lv) (etaBits lv))) ∧
+    ((∀ x ∈ a, -(gamma1Of lv) < x ∧ x ≤ gamma1Of lv) → z_pack lv a = .ok (bitPack a (gamma1Of lv) (zBits lv))) ∧
+    ((∀ x ∈ a, 0 ≤ x ∧ x < w1Card lv) → w1_pack lv a = simpleBitPack (a.map Int.toNat) (w1Bits lv)) ∧
+    (∀ bits, (simpleBitPack (a.map Int.toNat) bits).length = 32 * bits) :=
+  ⟨t1_pack_spec a hl, t0_pack_spec a hl, eta_pack_spec lv a hl, z_pack_spec lv a hl, w1_pack_spec lv a hl,
+   fun bits => simpleBitPack_length _ bits (by rw [List.length_map, hl])⟩
+
+open DV.BitSpec in
+/-- the bit-string functions on a concrete value (a test of the definitions, not the theorem): 0x2A5 on 10 bits and the
+    two-coefficient 4-bit packing of FIPS 204's w1 -/
+example : intToBits 0x2A5 10 = [1, 0, 1, 0, 0, 1, 0, 1, 0, 1] ∧ simpleBitPack [3, 12] 4 = [0xC3] ∧
+    bitPack [2, -2, 0, 1, -1, 2, 2, 2] 2 3 = [0xA0, 0x32, 0x00] := by decide
+
+open DV.EncodeSpec DV.Containers DV.HintCodec in
+/-- the three containers and the commitment encoding are pkEncode / skEncode / sigEncode / w1Encode (FIPS 204 Alg. 22,
+    24, 26, 28): concatenations of the seeds with the bit-packed polynomials, the signature ending in HintBitPack(h)
+    (Alg. 20: indices of the non-zero hint coefficients, zero padding up to ω, the k running totals) -/
+theorem containers_are_fips204_encodings (p : Params) (hp : p ∈ allParams) :
+    (∀ rho t1, rho.length = SEEDBYTES → (∀ a ∈ t1, a.length = 256 ∧ ∀ x ∈ a, 0 ≤ x ∧ x < 1024) →
+        pack_pk p rho t1 = .ok (pkEncode rho t1)) ∧
+    (∀ rho tr key t0 s1 s2, rho.length = SEEDBYTES → key.length = SEEDBYTES → tr.length = p.trBytes →
+        (∀ a ∈ s1, a.length = 256 ∧ ∀ x ∈ a, -(etaB p.lvl) ≤ x ∧ x ≤ etaB p.lvl) →
+        (∀ a ∈ s2, a.length = 256 ∧ ∀ x ∈ a, -(etaB p.lvl) ≤ x ∧ x ≤ etaB p.lvl) →
+        (∀ a ∈ t0, a.length = 256 ∧ ∀ x ∈ a, -4096 < x ∧ x ≤ 4096) →
+        pack_sk p rho tr key t0 s1 s2 = .ok (skEncode p.lvl rho key tr s1 s2 t0)) ∧
+    (∀ buf ct z h, buf.length = p.sigBytes → ct.length = p.ctilde →
+        (∀ a ∈ z, a.length = 256 ∧ ∀ x ∈ a, -(gamma1Of p.lvl) < x ∧ x ≤ gamma1Of p.lvl) →
+        h.length = p.k → (∀ a ∈ h, a.length = 256) → (idxOf h).length ≤ p.omega →
+        pack_sig p buf (some ct) z h = .ok (sigEncode p.lvl p.omega ct z h)) ∧
+    (∀ w1, (∀ a ∈ w1, a.length = 256 ∧ ∀ x ∈ a, 0 ≤ x ∧ x < w1Card p.lvl) → k_pack_w1 p.lvl w1 = w1Encode p.lvl w1) :=
+  ⟨fun rho t1 => pack_pk_spec p rho t1,
+   fun rho tr key t0 s1 s2 => pack_sk_spec p rho tr key t0 s1 s2,
+   fun buf ct z h => pack_sig_spec p hp buf ct z h,
+   fun w1 => k_pack_w1_spec p.lvl w1⟩
+
+/-- the per-set parameters of the encodings are the standard's: η and its bit length, γ1 and bitlen(2γ1 − 1),
+    (q − 1)/(2γ2) and bitlen of its predecessor -/
+theorem encoding_params : ∀ p ∈ allParams,
+    (DV.Containers.etaB p.lvl = p.eta ∧ 2 * p.eta < 2 ^ DV.EncodeSpec.etaBits p.lvl ∧ 2 ^ DV.EncodeSpec.etaBits p.lvl ≤ 4 * p.eta) ∧
+    (gamma1Of p.lvl = p.gamma1 ∧ 2 * p.gamma1 = 2 ^ DV.EncodeSpec.zBits p.lvl) ∧
+    (DV.EncodeSpec.w1Card p.lvl = (Q - 1) / (2 * p.gamma2) ∧ DV.EncodeSpec.w1Card p.lvl ≤ 2 ^ DV.EncodeSpec.w1Bits p.lvl ∧
+      2 ^ DV.EncodeSpec.w1Bits p.lvl < 2 * DV.EncodeSpec.w1Card p.lvl) := by decide
+
+open DV.BitSpec DV.EncodeSpec DV.DecodeSpec in
+/-- **the decoders are SimpleBitUnpack / BitUnpack** (FIPS 204 Alg. 18/19) on every byte string: what `t1_unpack` and
+    `z_unpack` return is in range and re-encodes (SimpleBitPack / BitPack) to exactly the bytes read — the codecs are
+    bijections between byte strings and in-range polynomials, so no byte string decodes to an out-of-range value and no
+    two byte strings decode to the same polynomial -/
+theorem decoders_are_bitunpack (lv : Lvl) (s : List Nat) (hb : ∀ b ∈ s, b < 256) :
+    (s.length = POLYT1 → ∃ r, t1_unpack s = .ok r ∧ r.length = 256 ∧ (∀ x ∈ r, 0 ≤ x ∧ x < 1024) ∧
+        simpleBitPack (r.map Int.toNat) 10 = s) ∧
+    (s.length = polyzOf lv → ∃ r, z_unpack lv s = .ok r ∧ r.length = 256 ∧ (∀ x ∈ r, -(gamma1Of lv) < x ∧ x ≤ gamma1Of lv) ∧
+        bitPack r (gamma1Of lv) (zBits lv) = s) :=
+  ⟨fun h => t1_unpack_spec s h hb, fun h => z_unpack_spec lv s h hb⟩
 
 end DV.C16
